@@ -123,6 +123,23 @@ def _table_order(ctx, P):
             ctx.ok("R12.2", "face padding under permuted boundary_width order", "identical result lineage")
         else:
             ctx.report("R12.2", fi, "face padding under permuted boundary_width order", "the order of the entries of boundary_width changes the order in which axes are padded (corner cells)")
+        # a vector on a mixed topology (one same-axis and one axis-swapping link): which faces the table lists first is immaterial
+        from ..facepad import table_pair
+        import itertools as _it
+
+        base = table_pair((False, False), (True, False))[FACE]
+        for vector in ("tangential", "parallel"):
+            results = {}
+            for order in _it.permutations(sorted(base)):
+                t = {FACE: {f: dict(base[f]) for f in order}}
+                results[order] = key(run(P, t, vector=vector, n_faces=3, prune=True))
+            ref_v = results[tuple(sorted(base))]
+            odd = [o for o, r in results.items() if r != ref_v]
+            inst = f"vector ({vector}) face padding on a mixed topology under permuted face listing"
+            if odd:
+                ctx.report("R12.2", fi, inst, f"listing the faces in the order {list(odd[0])} instead of {sorted(base)} changes the padded result: a decision is taken from whichever face the table lists first")
+            else:
+                ctx.ok("R12.2", inst, f"identical result for all {len(results)} listings")
     except Unmodelled as e:
         ctx.unknown("R12.2", "face padding under permuted insertion order", str(e))
     vfi = P.func("grid:Grid._assign_face_connections")
